@@ -4,6 +4,8 @@ package main
 // SSA over the loop-cut DAG, passive encoding, one query per obligation.
 
 import (
+	"os"
+	"runtime/debug"
 	"fmt"
 	"go/token"
 	"go/types"
@@ -209,6 +211,9 @@ type frameItem struct {
 type unsupportedErr struct{ msg string }
 
 func (g *Gen) unsupported(msg string) {
+	if os.Getenv("GOVC_DEBUG_UNSUPPORTED") != "" {
+		debug.PrintStack()
+	}
 	panic(unsupportedErr{msg + " at " + g.posStr(g.curPos)})
 }
 
@@ -575,8 +580,12 @@ func (g *Gen) findLoops() {
 			}
 			for _, in := range bb.Instrs {
 				if st, ok := in.(*ssa.Store); ok {
+					// the increment of the hidden index (its initialisation to -1 sits in front of the loop, i.e. in the
+					// enclosing loop's own blocks)
 					if a, ok := st.Addr.(*ssa.Alloc); ok && a.Comment == "rangeindex" {
-						return "range"
+						if _, inc := st.Val.(*ssa.BinOp); inc {
+							return "range"
+						}
 					}
 				}
 			}
@@ -1750,7 +1759,14 @@ func (g *Gen) addEdge(from, to *ssa.BasicBlock, st *State, cond string) {
 			g.curPos = g.loopPos(li)
 			for _, c := range li.spec.IterEnsures {
 				ctx := &specCtx{g: g, st: s3, old: g.entry}
-				g.oblige(s3, "iter-ensures", c.ID, fmt.Sprintf("loop %d: at the end of every iteration %s", li.ordinal, c.Src), g.evalGoal(ctx, c.E))
+				if g.driftedInv[c] {
+					continue
+				}
+				goal, okc := g.evalGoalOrDrift(ctx, c, fmt.Sprintf("loop %d invariant (iter-ensures)", li.ordinal))
+				if !okc {
+					continue
+				}
+				g.oblige(s3, "iter-ensures", c.ID, fmt.Sprintf("loop %d: at the end of every iteration %s", li.ordinal, c.Src), goal)
 			}
 			g.curPos = save
 		}
